@@ -57,7 +57,17 @@ RemoveRefused ==
      index' = IF Guard("remove_by_identity") THEN index ELSE index \ {e}
   /\ word' = Append(word, [op |-> "removerefused", explicit |-> 0, shape |-> <<>>, accepted |-> TRUE])
   /\ UNCHANGED <<accs, idCount>>
+\* the application adds a characteristic to the last service of the k-th accessory, which is in the container already (the
+\* optional characteristics of the library's services are added that way: NewLightbulb, then Hue and Saturation).  The ids
+\* follow (guard ids_follow_late_characteristics): the new characteristic gets the next id; a service that does not tell
+\* its accessory leaves it with id 0.
+LateChar(k) ==
+  /\ Len(word) < MaxAcc /\ k \in 1..Len(accs)
+  /\ accs' = [accs EXCEPT ![k].iids = Append(@, IF Guard("ids_follow_late_characteristics") THEN Len(@) + (IF Guard("iid_counter_starts_at_one") THEN 1 ELSE 0) ELSE 0)]
+  /\ word' = Append(word, [op |-> "latechar", explicit |-> k, shape |-> <<>>, accepted |-> TRUE])
+  /\ UNCHANGED <<idCount, index>>
 Next == \/ \E e \in Explicit, sh \in Shapes : Add(e, sh)
+        \/ \E k \in 1..MaxAcc : LateChar(k)
         \/ \E k \in 1..MaxAcc : RemoveMember(k)
         \/ RemoveRefused
 Spec == Init /\ [][Next]_vars
